@@ -2486,7 +2486,19 @@ class C19(Spec):
         return ["ShowUnpack"]
 
     def gen_cases(self, rng, n):
-        return [gen.gen_unpack_case(rng, f"u{i}") for i in range(n)]
+        # deterministic archives first (no draw from rng): file-like entries of a rare type the archive reader unpacks as
+        # ordinary files (contiguous, type flag '7'), alone and next to entries that ARE skipped (links, a carried marker)
+        pre = "foo-1.0.0"
+        base = [{"path": f"{pre}/Cargo.toml", "kind": "file", "content": "[package]"},
+                {"path": f"{pre}/src/lib.rs", "kind": "file", "content": "pub fn f() {}"}]
+        rare = [[{"path": f"{pre}/build.rs", "kind": "contiguous", "content": "fn main() {}"}],
+                [{"path": f"{pre}/link", "kind": "symlink", "target": "../other-1.0.0"},
+                 {"path": f"{pre}/contig.rs", "kind": "contiguous", "content": "a contiguous file"},
+                 {"path": f"{pre}/.cargo-ok", "kind": "file", "content": "ok"}],
+                [{"path": f"{pre}/src/lib.rs", "kind": "contiguous", "content": "the later entry wins"}]]
+        fixed = [{"id": f"ur{k}", "kind": "unpack", "name": "foo", "version": "1.0.0", "entries": base[:1] + r + base[1:] if k != 2 else base + r}
+                 for k, r in enumerate(rare)]
+        return fixed + [gen.gen_unpack_case(rng, f"u{i}") for i in range(n)]
 
     def run(self, rng, tier, work, model_ok=True, ncases=None, replay=None):
         n = ncases or (self.quick_n if tier == "quick" else self.thorough_n)
@@ -2562,6 +2574,24 @@ class C19(Spec):
                     if ref_ok and here != ref_tree:
                         extra = sorted(set(here.items()) ^ set(ref_tree.items()))[:3]
                         fail(f"step {k}: the source directory handed out differs from a complete unpack of the archive: {extra}")
+                    # ... and it is the archive, exactly (the text-level counterpart of C19_accepted_tree_is_the_archive; no
+                    # value the implementation computed is taken as the truth here): every regular-file entry below the crate's
+                    # directory is there, with the content of the last entry of that name
+                    if not any("size" in e for e in case["entries"]):
+                        want = {}
+                        for e in case["entries"]:
+                            real = e.get("long_name") or e["path"]
+                            comps = [c for c in real.split("/") if c not in ("", ".")]
+                            if real.startswith("/") or ".." in comps or not comps or comps[0] != crate.split("/")[-2]:
+                                continue
+                            if e.get("kind", "file") not in ("file", "contiguous") or comps[-1] == ".cargo-ok":
+                                continue
+                            want[crate + "/".join(comps[1:])] = "file:" + e.get("content", "")[:40]     # (the harness reports the first 40 characters)
+                        for path, v in sorted(want.items()):
+                            if here.get(path) != v:
+                                fail(f"step {k}: the source directory handed out as complete lacks (or alters) the archive's file {path!r}: "
+                                     f"{str(here.get(path))[:40]!r} instead of {v[:40]!r}")
+                                break
                 elif marker == "file:ok":
                     fail(f"step {k}: unpacking failed ({s['result'][:60]}) but the directory keeps a valid completion marker")
             # (3) after an interruption the retry succeeds whenever a clean unpack does
